@@ -5,6 +5,7 @@ import (
 	"encoding/json"
 	"fmt"
 	"net/http"
+	"net/http/httptest"
 	"os"
 	"path/filepath"
 	"runtime"
@@ -14,6 +15,7 @@ import (
 	"strings"
 
 	"github.com/openebs/jiva/controller"
+	crest "github.com/openebs/jiva/controller/rest"
 	jsync "github.com/openebs/jiva/sync"
 	"github.com/openebs/jiva/types"
 
@@ -377,6 +379,8 @@ func (cl *cluster) apply(ev string) {
 		}
 		cl.nRestart++
 		cl.observe("Kill -> %s", cl.taskDesc())
+	case "DelSnap":
+		cl.deleteSnapshot(ev, f[1], before)
 	case "Break":
 		cl.stickyREST[f[1]+"/"+f[2]] = true
 		cl.nFaults++
@@ -663,5 +667,64 @@ func (cl *cluster) snapshot(ev string, mask int, before controller.VerifView) {
 				cl.violate("snapshot-not-point-in-time", "snapshot-differs", fmt.Sprintf("%s: snapshot %s differs between node %d and node %d", ev, full, have[0], i))
 			}
 		}
+	}
+}
+
+// deleteSnapshot sends the user's snapshot deletion through the real controller REST handler and checks its
+// preconditions (C11): accepted only with all RF replicas RW, a checkpoint recorded, and not for the checkpoint itself;
+// an accepted request marks the snapshot removed on every replica, a refused one marks nothing.
+func (cl *cluster) deleteSnapshot(ev, which string, before controller.VerifView) {
+	name := which
+	if which == "cp" {
+		name = strings.TrimSuffix(strings.TrimPrefix(before.Checkpoint, "volume-snap-"), ".img")
+		if name == "" {
+			name = "nocheckpoint"
+		}
+	}
+	full := "volume-snap-" + name + ".img"
+	removedOn := func() []int {
+		var l []int
+		for i, nd := range cl.nodes {
+			if rn, ok := nd.(*RealNode); ok && rn.srv.Replica() != nil {
+				if d, ok := rn.srv.Replica().ListDisks()[full]; ok && d.Removed {
+					l = append(l, i)
+				}
+			}
+		}
+		return l
+	}
+	was := removedOn()
+	if cl.ctlRouter == nil {
+		cl.ctlRouter = crest.NewRouter(crest.NewServer(cl.c))
+	}
+	req, _ := http.NewRequest("DELETE", "http://"+ctlHost+":9501/v1/volumes/dm9s?action=deleteSnapshot", strings.NewReader(`{"name":"`+name+`"}`))
+	req.Header.Set("Content-Type", "application/json")
+	rec := httptest.NewRecorder()
+	cl.guard(ev, func() error { cl.ctlRouter.ServeHTTP(rec, req); return nil })
+	cl.settle()
+	now := removedOn()
+	accepted := rec.Code == 200
+	cl.observe("%s -> %d marked=%v", ev, rec.Code, now)
+	if !cl.wants("c11") {
+		return
+	}
+	cl.cnt["delete_requests"]++
+	cl.nDeletes++
+	rw, _, _ := modesOf(before)
+	if accepted {
+		cl.cnt["delete_accepted"]++
+	}
+	if len(now) > len(was) || accepted {
+		switch {
+		case len(rw) != cl.cfg.RF:
+			cl.violate("delete-precondition", "delete-without-all-rw", fmt.Sprintf("%s (%s) answered %d and marked %v although only %d of RF=%d replicas are RW", ev, name, rec.Code, now, len(rw), cl.cfg.RF))
+		case before.Checkpoint == "":
+			cl.violate("delete-precondition", "delete-without-checkpoint", fmt.Sprintf("%s (%s) answered %d and marked %v although the controller has no checkpoint", ev, name, rec.Code, now))
+		case before.Checkpoint == full:
+			cl.violate("delete-precondition", "delete-of-checkpoint", fmt.Sprintf("%s answered %d and marked %v: %s is the checkpoint", ev, rec.Code, now, full))
+		}
+	}
+	if !accepted && len(now) > len(was) {
+		cl.violate("delete-precondition", "refused-delete-marked", fmt.Sprintf("%s (%s) was refused (%d) but the snapshot is now marked removed on %v (before %v)", ev, name, rec.Code, now, was))
 	}
 }
